@@ -141,9 +141,15 @@ def selfarray_records(rnd):
     cnt = {"k": "id", "name": "n"}
     dims = rnd.choice([1, 1, 2])
 
+    # ... and a member added LATER, with a larger alignment than anything the structure had when `kids` was declared: the array of
+    # itself follows (seed S138)
+    later = A.t_int(rnd.choice(["uint64", "uint32", "uint64"])) if rnd.random() < 0.5 else None
+    if later:
+        pre = [A.field(f"m{i}", A.t_int(rnd.choice(["uint8", "uint16"]))) for i in range(rnd.randrange(0, 3))]
+
     def level(kid_elem):
         arr = A.t_arr(kid_elem, A.L_expr(cnt)) if dims == 1 else A.t_arr(A.t_arr(kid_elem, A.L_fixed(2)), A.L_expr(cnt))
-        return A.t_struct("SA", [dict(f) for f in pre] + [A.field("n", u8), A.field("kids", arr)])
+        return A.t_struct("SA", [dict(f) for f in pre] + [A.field("n", u8), A.field("kids", arr)] + ([A.field("z", later)] if later else []))
 
     twin = level(level(u8))
     body = " ".join(f"{f['type']['name']} {f['name']};" for f in pre)
@@ -153,6 +159,9 @@ def selfarray_records(rnd):
     try:
         cs = codec.load(defs, mode, compiled)
         T = cs.SA
+        if later:
+            T.add_field("z", cs.resolve(later["name"]))
+            defs += f"  /* + add_field z {later['name']} */"
     except Exception as e:  # noqa: BLE001
         return [{"id": 0, "kind": "parse", "type": twin, "mode": mode, "defs": defs, "req_compiled": compiled, "loaderr": f"{type(e).__name__}: {e}"[:300]}]
     noff = T.fields["n"].offset
@@ -198,7 +207,7 @@ class IncrementalCheck:
             recs += incremental_records(rnd, 0, selfref=True)
         for _ in range(600 if thorough else 40):
             recs += incremental_records(rnd, 0, padnames=True)
-        for _ in range(400 if thorough else 30):
+        for _ in range(600 if thorough else 60):
             recs += selfarray_records(rnd)
 
         def nontrivial(r):
